@@ -1440,7 +1440,8 @@ SPECS["C05"]["theorems"] += [
     "Woodpile.Props.C05S.chunker_new_rel",
     "Woodpile.Props.C05S.chunker_world_agrees",
     "Woodpile.Props.C05S.data_chunk_live",
-    "Woodpile.Props.C05S.reader_world_agrees_partial",
+    "Woodpile.Props.C05S.reader_next_agrees",
+    "Woodpile.Props.C05S.reader_world_agrees",
 ]
 SPECS["C05"]["level_text"] += (' Props/C05S (track rdrworld): StreamChunker chunks and StreamReader records. Model/StreamWorld.lean models pump / '
     'next_record_bytes on the structural World (the arena is a detached ByteArena or the decoder iovec\'s own; StreamChunker::buf and every Chunk::Data '
@@ -1453,10 +1454,13 @@ SPECS["C05"]["level_text"] += (' Props/C05S (track rdrworld): StreamChunker chun
     'record_slices_live (every slice of the iovec after a call lies in a live chunk held by the iovec\'s OWN anchors, inside the capacity, below the bump '
     'pointer), record_guarded, reader_chunks_live. WHAT bytes are returned stays with C06/C08 (byte-level model); that the world-level model returns the same '
     'bytes AND places every slice where the real code does is checked by the new correspondence families chunkerw / readerw (same op vocabulary and lines as '
-    'chunker / reader plus at=/R slices= placements through the H1 registry and the live set after every call; held-chunk containment + content oracle), not '
-    'proved for the READER. For the CHUNKER it is proved (Proofs/StreamWorldRef): pump_world_agrees / chunker_world_agrees - every history of a new '
-    'chunker and its caller (pumps with any block sizes on any arena, interleaved with the caller dropping chunks; any stream / reader script; any world) '
-    'returns pump by pump exactly the chunks of the byte-level chunker Stream.pumpSeq of C08 (verdicts, offsets, BYTES) and leaves the reader where it leaves '
-    'it; data_chunk_live: the handle of a Data chunk names a non-empty detached slice holding those bytes, live, below the bump pointer. Open: nextW refines '
-    'Stream.next (missing: decode_anchored of a chunk keeps the chunker-buffer relation CRel - a heap-frame lemma for a second held slice - and the iovec then '
-    'holds Stream.Rec.bytes - SimV for a chunk of a foreign AnchoredSlice).')
+    'chunker / reader plus at=/R slices= placements through the H1 registry and the live set after every call; held-chunk containment + content oracle): '
+    'the subject of these families. That the world-level model returns the same BYTES as the byte-level model of C06/C08 is PROVED: CHUNKER '
+    '(Proofs/StreamWorldRef) pump_world_agrees / chunker_world_agrees - every history of a new chunker and its caller (pumps with any block sizes on any '
+    'arena, interleaved with the caller dropping chunks; any stream / reader script; any world) returns pump by pump exactly the chunks of Stream.pumpSeq '
+    '(verdicts, offsets, bytes) and leaves the reader where it leaves it; data_chunk_live: the handle of a Data chunk names a non-empty detached slice '
+    'holding those bytes, live, below the bump pointer. READER (Proofs/StreamWorldRd) reader_next_agrees / reader_world_agrees - any number of '
+    'next_record_bytes calls of a new reader, each with its own judge and block size, return call by call exactly what Stream.next returns (Some with the same '
+    'range and the byte-level record = the FLATTENED IOVEC, None, the same I/O error) and leave the reader in the same position; proof: the iovec satisfies '
+    'the single-iovec invariant IovInv and every detached slice is held w.r.t. it (Geo), decode_anchored of a chunk appends exactly the decoder\'s emits '
+    '(decFeed_pushed) and leaves the chunker\'s buffered tail and its bytes alone (FrameOut), pump touches no detached slice but its own (pumpW_only).')
